@@ -141,29 +141,53 @@ def run(repo, tier):
     r.ob("R7.2", "expr.py::Expr._compute_serialized generic key", ok, detail, loc(rel, gv))
 
     tl = repo.func(rel, "Expr._two_level_intkey")
-    rets = sorted((n for n in ast.walk(tl) if isinstance(n, ast.Return)), key=lambda n: n.lineno)
-    if len(rets) != 2:
-        raise AnalysisError("Expr._two_level_intkey: expected two returns")
-    leaf, gen = rets
-    ok_leaf = isinstance(leaf.value, ast.Tuple) and [dotted(e) for e in leaf.value.elts] == ["self.kind", "self.intkey"]
-    r.ob("R7.2", "expr.py::Expr._two_level_intkey leaf", ok_leaf, f"leaf two-level key is `{norm_src(leaf.value)}`", loc(rel, leaf))
-    ok_gen = False
-    v = gen.value
-    if isinstance(v, ast.Tuple) and len(v.elts) == 2 and dotted(v.elts[0]) == "self.kind" and isinstance(v.elts[1], ast.Starred):
-        g = v.elts[1].value
-        if isinstance(g, (ast.GeneratorExp, ast.ListComp)) and len(g.generators) == 1 and not g.generators[0].ifs:
-            ge = g.generators[0]
-            if dotted(ge.iter) == "self.operands" and isinstance(ge.target, ast.Name) and dotted(g.elt) == f"{ge.target.id}.intkey":
-                ok_gen = True
-    r.ob("R7.2", "expr.py::Expr._two_level_intkey inner", ok_gen, f"two-level key of an operation is `{norm_src(v)}`; it must contain the kind and every operand's intkey in order", loc(rel, gen))
-    # leaf test covers exactly symbol and constant
-    leaf_if = [n for n in tl.body if isinstance(n, ast.If)]
-    if leaf_if:
-        t = leaf_if[0].test
-        kinds = None
-        if isinstance(t, ast.Compare) and isinstance(t.comparators[0], ast.Set):
-            kinds = {e.value for e in t.comparators[0].elts if isinstance(e, ast.Constant)}
-        r.ob("R7.2", "expr.py::Expr._two_level_intkey leaf kinds", kinds == {"symbol", "constant"}, f"leaf kinds are {kinds}: kinds whose operands are not expressions must use their own intkey", loc(rel, t))
+    n_tl = 0
+    for p in enumerate_paths(tl):
+        if p.exit != "return" or p.exit_node.value is None:
+            continue
+        n_tl += 1
+        v = p.exit_node.value
+        conds = [(norm_src(e.node), e.pol) for e in p.events if e.kind == "test"]
+        leaf = any(pol and "self.kind in" in t and "symbol" in t for t, pol in conds)
+        if leaf:
+            kinds = None
+            for e in p.events:
+                if e.kind == "test" and isinstance(e.node, ast.Compare) and isinstance(e.node.comparators[0], ast.Set):
+                    kinds = {x.value for x in e.node.comparators[0].elts if isinstance(x, ast.Constant)}
+            ok_leaf = isinstance(v, ast.Tuple) and [dotted(x) for x in v.elts] == ["self.kind", "self.intkey"]
+            r.ob("R7.2", "expr.py::Expr._two_level_intkey leaf", ok_leaf, f"leaf two-level key is `{norm_src(v)}`", loc(rel, v))
+            r.ob("R7.2", "expr.py::Expr._two_level_intkey leaf kinds", kinds == {"symbol", "constant"}, f"leaf kinds are {kinds}: kinds whose operands are not expressions must use their own intkey", loc(rel, v))
+            continue
+        # inner node: the key must contain the kind and the intkey of EVERY operand, in order
+        has_kind = isinstance(v, ast.Tuple) and v.elts and dotted(v.elts[0]) == "self.kind"
+        all_ops = False
+        if isinstance(v, ast.Tuple):
+            for x in v.elts[1:]:
+                if isinstance(x, ast.Starred) and isinstance(x.value, (ast.GeneratorExp, ast.ListComp)) and len(x.value.generators) == 1:
+                    ge = x.value.generators[0]
+                    if dotted(ge.iter) == "self.operands" and not ge.ifs and isinstance(ge.target, ast.Name) and dotted(x.value.elt) == f"{ge.target.id}.intkey":
+                        all_ops = True
+        if not all_ops and isinstance(v, ast.Tuple):
+            # explicit indexing is complete only under a path condition fixing the operand count
+            idx = []
+            for x in v.elts[1:]:
+                t = norm_src(x)
+                import re as _re
+                m = _re.fullmatch(r"self\.operands\[(\d+)\]\.intkey", t)
+                if m:
+                    idx.append(int(m.group(1)))
+            n_fixed = None
+            for t, pol in conds:
+                m = _re.fullmatch(r"len\(self\.operands\) == (\d+)", t) if idx else None
+                if m and pol:
+                    n_fixed = int(m.group(1))
+            if idx and n_fixed is not None and idx == list(range(n_fixed)):
+                all_ops = True
+        r.ob("R7.2", f"expr.py::Expr._two_level_intkey inner path [{' & '.join(('' if pol else 'not ') + t for t, pol in conds)[-80:] or 'true'}]", has_kind and all_ops,
+             f"two-level key of an operation is `{norm_src(v)}`; it must contain the kind and the intkey of every operand in order (an n-ary list/apply has arbitrarily many): "
+             "operands that do not reach the key make structurally different parents register under the same key", loc(rel, v))
+    if n_tl < 2:
+        raise AnalysisError("Expr._two_level_intkey: fewer than two return paths")
 
     # ---- key / intkey properties return the private fields set by the two setters
     for prop, field in (("key", "__serialized"), ("intkey", "__serialize_id")):
